@@ -792,7 +792,9 @@ def unit_audioreader(sess, ctx):
             return None
         nm = ["data", "rewind", "sr"][eng.choose(3, None, "attribute")]
         try:
-            res = eng.run_function(ctx.fi(QU + "AudioReader.__getattr__"), [nm], {}, me)
+            # Python's full attribute lookup on the reader object (class-level properties come before __getattr__)
+            eng.inline |= {QU + "AudioReader.__getattr__"}
+            res = eng.getattr(me, nm)
         except PyRaise as e:
             eng.prove("C19:AudioReader:data/rewind-hidden-iff-not-recording",
                       e.exc == "AttributeError" and (not rec) and nm in ("data", "rewind"), props=P19)
